@@ -338,7 +338,10 @@ def internals(job):
     for name in ("__state", "__current_task", "__current_item", "__custom"):
         for expr in ("<%% ctx(%s) %%>" % name, "<%% ctx('%s') %%>" % name, "{{ ctx('%s') }}" % name, '{{ ctx("%s") }}' % name,
                      "<%% ctx().%s %%>" % name, "{{ ctx().%s }}" % name, "<%% ctx().get(%s) %%>" % name,
-                     "{{ ctx().get('%s') }}" % name, "{{ ctx()['%s'] }}" % name):
+                     "{{ ctx().get('%s') }}" % name, "{{ ctx()['%s'] }}" % name,
+                     # a dotted path below the internal name, in case the context function resolves such keys
+                     '<%% ctx("%s.id") %%>' % name, "<%% ctx('%s.secret') %%>" % name, "{{ ctx('%s.id') }}" % name,
+                     '{{ ctx("%s.status") }}' % name, "<%% ctx(%s).id %%>" % name, "{{ ctx('%s').id }}" % name):
             out["evaluations"] += 1
             out["nontrivial"].add(expr)
             try:
